@@ -342,10 +342,15 @@ class ValueArgsError(Exception):
     """
 
     def __init__(self, arg_name, arg_value, return_value = None):
+        try:
+            arg_value_json = value_json(arg_value)
+        except ValueError:
+            # The value is not JSON serializable (e.g. circular reference, NaN)
+            arg_value_json = f'<{value_type(arg_value)}>'
         if arg_name is None:
-            message = f'Too many arguments ({value_json(arg_value)})'
+            message = f'Too many arguments ({arg_value_json})'
         else:
-            message = f'Invalid "{arg_name}" argument value, {value_json(arg_value)}'
+            message = f'Invalid "{arg_name}" argument value, {arg_value_json}'
         super().__init__(message)
         self.return_value = return_value
 
